@@ -156,7 +156,16 @@ func (m *Machine) globalAddr(g *ssa.Global) *Value {
 		return p
 	}
 	p := new(Value)
-	*p = zero(g.Type().(*types.Pointer).Elem())
+	elem := g.Type().(*types.Pointer).Elem()
+	*p = zero(elem)
+	if g.Pkg != nil && !initAllowed(g.Pkg.Pkg.Path()) && types.Identical(elem, types.Universe.Lookup("error").Type()) && m.prog.errorsErrorString != nil {
+		// a sentinel error of a package whose initialisers are not run (net.ErrClosed,
+		// os.ErrDeadlineExceeded, ...): a distinct opaque error object, so that
+		// comparisons and errors.Is behave
+		obj := new(Value)
+		*obj = Struct{Str{S: g.Pkg.Pkg.Path() + "." + g.Name()}}
+		*p = Iface{T: m.prog.errorsErrorString, V: obj}
+	}
 	m.globals[g] = p
 	if m.journalOn {
 		// created during a path: forget it again afterwards so that every path sees
